@@ -50,6 +50,8 @@ func (o *Obligation) smtTextS(extra []string, light bool) string {
 		// vacuity guards are satisfiability queries: global quantified axioms are left out
 		// (they only constrain uninterpreted functions) so that solvers can build a model
 		sb.WriteString(g.preambleOpt(false))
+	} else if light {
+		sb.WriteString(g.preambleQF())
 	} else {
 		sb.WriteString(g.preambleOpt(true))
 	}
@@ -190,7 +192,7 @@ func solve2(text, light string, timeout int, wantModel bool, all bool, tag strin
 				sl := sd
 				a, o, s := runOne(ctx, sl, light, timeout, false, dir, sanitize(tag)+".light")
 				if a == "sat" {
-					a = "unknown" // fewer hypotheses: a model proves nothing
+					a = "light-sat" // fewer hypotheses: a model proves nothing, but a proof is now unlikely
 				}
 				sl.name += "/light"
 				ch <- res{sl, a, o, s}
@@ -201,9 +203,26 @@ func solve2(text, light string, timeout int, wantModel bool, all bool, tag strin
 	t0 := time.Now()
 	var errs []string
 	got := 0
+	var grace <-chan time.Time
 	for got < nproc {
-		r := <-ch
+		var r res
+		select {
+		case r = <-ch:
+		case <-grace:
+			// the hypothesis-reduced query is satisfiable and the full query has not been decided
+			// within the grace period: stop waiting (reported as undecided, like a timeout)
+			cancel()
+			final.All["note"] = "stopped early: reduced query satisfiable, full query undecided after grace period"
+			got = nproc
+			continue
+		}
 		got++
+		if r.ans == "light-sat" {
+			r.ans = "unknown"
+			if grace == nil {
+				grace = time.After(3 * time.Second)
+			}
+		}
 		final.All[r.sd.name] = r.ans
 		if r.ans == "error" {
 			errs = append(errs, r.sd.name+": "+firstLines(r.out, 3))
